@@ -444,7 +444,7 @@ func (g *c28Gen) paramExp() string {
 	r := g.r
 	n := g.name()
 	if r.Chance(15) {
-		n = r.Pick([]string{"@", "*", "#", "?", "-", "$", "!", "0", "1", "2", "9", "10", "arr[@]", "arr[*]", "arr[0]", "arr[-1]", "arr[1+1]", "m[k]", "m[@]", "LINENO", "RANDOM", "OPTIND", "PWD", "IFS"})
+		n = r.Pick([]string{"@", "*", "#", "?", "-", "$", "!", "0", "1", "2", "9", "10", "arr[@]", "arr[*]", "arr[0]", "arr[-1]", "arr[1+1]", "m[k]", "m[1+2]", "m[@]", "LINENO", "RANDOM", "OPTIND", "PWD", "IFS"})
 	}
 	off := func() string {
 		return r.Pick([]string{"0", "1", "2", "-1", " -1", "-9", " -9", "9", "99", "(-2)", "n", "$n", "1+1", "", "9223372036854775807", " -9223372036854775808"})
@@ -563,7 +563,7 @@ func (g *c28Gen) simple(d int) string {
 	case 4:
 		return "arr" + r.Pick([]string{"=(", "+=("}) + g.words(3) + ")"
 	case 5:
-		return r.Pick([]string{"arr[" + g.arith(1) + "]=", "arr[" + g.num() + "]+=", "m[k]=", "m[$x]="}) + g.word(1)
+		return r.Pick([]string{"arr[" + g.arith(1) + "]=", "arr[" + g.num() + "]+=", "m[k]=", "m[$x]=", "m[1+2]=", "m[i++]="}) + g.word(1)
 	case 6:
 		return r.Pick([]string{"declare", "local", "export", "readonly", "typeset", "declare -a", "declare -A", "declare -i", "declare -n", "declare -r", "declare -x", "declare -p", "declare -f", "declare -g", "declare -l", "declare -u", "declare -ai", "declare +x", "nameref", "export -n", "readonly -a", "local -"}) + " " +
 			r.Pick([]string{"", "z", "z=1", "z=(1 2)", "z=([a]=1 [b]=2)", "z[1]=2", "$x", "\"$@\"", "-x", "z+=1", "arr", "f", "1z", "z=$x w", "ref=z", "ref=ref"})
